@@ -420,10 +420,13 @@ fn check_observers(r: &Recipe, cfg: &Cfg, stats: &mut Stats) -> Result<(), Failu
 }
 
 pub fn check_recipe(r: &Recipe, stats: &mut Stats) -> Result<(), Failure> {
-    let _ = pow5();
+    check_recipe_cfgs(r, &[0, 2, 1, 3], stats)
+}
+
+pub fn check_recipe_cfgs(r: &Recipe, cfgs: &[usize], stats: &mut Stats) -> Result<(), Failure> {
     if r.sel[7] < 0x2800 {
-        for cfg in [&CFGS[0], &CFGS[2], &CFGS[1], &CFGS[3]] {
-            check_observers(r, cfg, stats)?;
+        for &ci in cfgs {
+            check_observers(r, &CFGS[ci], stats)?;
         }
         stats.class("observers (hi64, bit_length, compare, is_normalized, from_u64)");
         stats.nontrivial.push(gen::mix(r.a ^ r.b ^ 0x0b5));
@@ -432,8 +435,8 @@ pub fn check_recipe(r: &Recipe, stats: &mut Stats) -> Result<(), Failure> {
     let c = op_case(r);
     stats.class(c.name);
     // both storage back-ends, with and without `compact` (pow uses LARGE_POW5 only without it)
-    for cfg in [&CFGS[0], &CFGS[2], &CFGS[1], &CFGS[3]] {
-        check_op(&c, cfg, stats)?;
+    for &ci in cfgs {
+        check_op(&c, &CFGS[ci], stats)?;
     }
     let need = needs_limbs(&c.want);
     let mut nt = false;
